@@ -74,6 +74,11 @@ func (t *tbl) Call(ip *absint.Interp, site ssa.CallInstruction, args []absint.Va
 		if h, ok := t.invoke[com.Method]; ok {
 			return h(ip, args), true
 		}
+		for m, h := range t.invoke {
+			if core.NarrowedView(com.Method, m, com.Value.Type()) {
+				return h(ip, args), true
+			}
+		}
 		if h, ok := t.invokeN[com.Method.Name()]; ok {
 			return h(ip, args), true
 		}
